@@ -498,13 +498,23 @@ def legacy_grouping_table(ctx, program, rid):
         ("three event triggers, one webhook trigger", [dec("event_trigger", "e1"), dec("event_trigger", "e2"), dec("webhook_trigger", "hook"), dec("event_trigger", "e3"), dec("task_unique", "n")],
          [{"event_trigger": "e1", "webhook_trigger": "hook", "task_unique": "n"}, {"event_trigger": "e2", "task_unique": "n"}, {"event_trigger": "e3", "task_unique": "n"}]),
         ("one trigger of each of two types", [dec("state_trigger", "d.a == '1'"), dec("time_trigger", "once(3:00)")], [{"state_trigger": "d.a == '1'", "time_trigger": "once(3:00)"}]),
+        # keyword arguments given as None (accepted by the validation: None is every keyword's default) are the same as omitted ones
+        ("keywords given as None", [dec("event_trigger", "ev", kwargs=None), dec("state_trigger", "d.a == '1'", kwargs=None, state_hold=None), dec("time_trigger", "shutdown", kwargs=None)],
+         [{"event_trigger": "ev", "state_trigger": "d.a == '1'", "time_trigger": "shutdown"}]),
     ]
     for label, decs, want in cases:
         made = []
 
-        def get_trig_info(i, n, a, k, c, o, made=made):
+        nones = []
+
+        def get_trig_info(i, n, a, k, c, o, made=made, nones=nones):
             d = a[1] if len(a) > 1 else None
             row = {}
+            if isinstance(d, DictV):
+                for kk, vv in d.items:
+                    kws = vv.get(Const("kwargs")) if isinstance(vv, DictV) else None
+                    if isinstance(kws, DictV):
+                        nones.extend(f"@{kk.v}({k2.v}=None)" for k2, v2 in kws.items if v2 == Const(None))
             if isinstance(d, DictV):
                 for kk, vv in d.items:
                     if kk.v in ("action", "global_sym_table"):
@@ -528,6 +538,9 @@ def legacy_grouping_table(ctx, program, rid):
             bad = f"exits {[d for k, c, d in ex]}"
         elif made != want:
             bad = f"trigger tasks are built with {made}, specified {want}"
+        elif nones:
+            bad = (f"the trigger task is configured with {nones}: the loop merges the decorator's kwargs with func_args.update(None) at the first occurrence (TypeError - the task ends for good; "
+                   "at removal it aborts the context's stop loop), where an omitted keyword works")
         ctx.check(bad is None, rid, uid, f"legacy grouping: {label}", msg=f"legacy trigger_init, {label}: {bad}", key=f"legacy grouping {label}", node=program.func(uid), rel="eval.py")
 
 
